@@ -135,11 +135,11 @@ class BuiltinsMixin(object):
         if not isinstance(x, SV) and x == 0:
             return F(0)
         c, s = self.E.trig("cos", x), self.E.trig("sin", x)
-        # math.tan never raises for finite arguments; where cos == 0 the float result is huge but finite.
-        # Over the reals tan is undefined there: fork, and treat that path as undecidable.
-        if self.E.decide(c == 0):
-            raise Undecided("tan at a pole (real-number model)")
-        return SV(s.t / c.t, "real")
+        # math.tan never raises for finite arguments.  Over the reals tan is undefined at the poles; there the
+        # result is left unconstrained (an arbitrary real), everywhere else tan(x)*cos(x) == sin(x).
+        t = self.E.uf("tan", x)
+        self.E.axiom(z3.Implies(c.t != 0, t.t * c.t == s.t))
+        return t
 
     def m_hypot(self, x, y):
         x, y = self.num_arg(x), self.num_arg(y)
@@ -166,7 +166,7 @@ class BuiltinsMixin(object):
                 self.raise_("ValueError", "math domain error")
             return math.acos(x)
         x = to_real(x)
-        if self.E.decide(sv_or(x < -1, x > 1)):
+        if self.E.implicit_raise(sv_or(x < -1, x > 1), "ValueError(acos)"):
             self.raise_("ValueError", "math domain error")
         r = self.E.uf("acos", x)
         self.E.axiom(z3.And(r.t >= 0, r.t <= self.E.pi.t))
@@ -520,7 +520,7 @@ class BuiltinsMixin(object):
         if isinstance(x, (frozenset, set, range)):
             return len(x)
         if isinstance(x, FmtStr):
-            raise Undecided("len of formatted string")
+            return len(x.placeholder()[0])  # length of the representative spelling (consistent with regex positions)
         from .core import LazySeq
 
         if isinstance(x, LazySeq):
@@ -1117,17 +1117,12 @@ class BuiltinsMixin(object):
                 # A5 (numeral-spelling independence): every opaque numeral is replaced by a distinct concrete
                 # placeholder numeral, the real regex runs on that text, and placeholders found in the
                 # result are mapped back to the opaque numerals.
-                out = []
                 for part in s.parts:
-                    if isinstance(part, str):
-                        if PLACEHOLDER_RE.search(part):
-                            raise Undecided("text collides with numeral placeholders")
-                        out.append(part)
-                    else:
-                        key = "9%04d7" % (len(holder) + 1)
-                        holder[key] = part
-                        out.append(key)
-                return "".join(out)
+                    if isinstance(part, str) and PLACEHOLDER_RE.search(part):
+                        raise Undecided("text collides with numeral placeholders")
+                text, hd = s.placeholder()
+                holder.update(hd)
+                return text
             if s is None or is_number(s) or isinstance(s, (Obj, PList, PDict, tuple)):
                 self.raise_("TypeError", "expected string or bytes-like object, got '%s'" % type(s).__name__)
             raise Undecided("regex on symbolic text (%s)" % r.pattern[:30])
